@@ -162,3 +162,48 @@ func VP_C02_Interior() {
 	}
 	vp.Reach("end")
 }
+
+// VP_C02_DCClip: with Clip enabled every dual-contouring vertex stays inside
+// the lattice cell that produced it, shrunk by CubeMargin*Delta, for a
+// symbolic CubeMargin in (0, 1/2] (and for the default margin). The per-cell
+// stage is driven directly (populateCorners/Edges/Cubes) on a small solid
+// with sharp features; only the margin is symbolic.
+func VP_C02_DCClip() {
+	solid := NewRect(XYZ(-0.43, -0.37, -0.29), XYZ(0.41, 0.33, 0.47))
+	delta := 0.5
+	dc := &DualContouring{
+		S:        SolidSurfaceEstimator{Solid: solid},
+		Delta:    delta,
+		Clip:     true,
+		NoJitter: true,
+		MaxGos:   1,
+	}
+	margin := 0.0
+	if vp.Param("explicit") == 1 {
+		margin = vp.Float64("cubeMargin")
+		vp.Assume(vp.And(margin > 0, margin <= 0.5))
+		dc.CubeMargin = margin
+	}
+	layout := newDcCubeLayout(solid.Min(), solid.Max(), dc.Delta, dc.NoJitter, dc.BufferSize)
+	vp.Assert(layout.Remaining() == 0, "single-pass layout")
+	dc.populateCorners(layout)
+	dc.populateEdges(layout, nil)
+	dc.populateCubes(layout)
+	active := 0
+	for i := range layout.Cubes {
+		idx := dcCubeIdx(i)
+		if !layout.CubeActive(idx) {
+			continue
+		}
+		active++
+		mn, mx := layout.CubeMinMax(idx)
+		p := layout.Cube(idx).VertexPosition
+		vp.Assert(vpInBox(p, mn, mx), "clipped vertex stays inside its cell")
+		if vp.Param("explicit") == 1 {
+			m := margin * delta
+			vp.Assert(vp.All(p.X >= mn.X+m, p.Y >= mn.Y+m, p.Z >= mn.Z+m, p.X <= mx.X-m, p.Y <= mx.Y-m, p.Z <= mx.Z-m), "clipped vertex keeps CubeMargin*Delta from the cell walls")
+		}
+	}
+	vp.Assert(active > 0, "some cells are active")
+	vp.Reach("end")
+}
